@@ -72,6 +72,7 @@ theorem decide_ok {o : Order} {c : List Msg} {e : Exch} (d : Decision) (h : Sync
           generalize hlv : (if p'.qty - e.cum < 0 then (0 : Int) else p'.qty - e.cum) = lv at hcalm ⊢
           generalize hb : (if lv = 0 then "2" else if e.base = "9" then "9" else if e.cum > 0 then "1" else "0") = b
             at hcalm ⊢
+          generalize hnq : (if p'.qty < e.cum then e.cum else p'.qty) = nq at hcalm ⊢
           have hb9 : b ≠ "9" := by
             intro h9
             have := hcalm _ (List.mem_singleton.mpr rfl)
@@ -84,9 +85,9 @@ theorem decide_ok {o : Order} {c : List Msg} {e : Exch} (d : Decision) (h : Sync
               | decide
               | (exfalso; apply hb9; simp [*])
           have hfe := feed_execRep o
-            { e with pending := none, liveId := p'.clOrdId, price := p'.price, qty := p'.qty, leaves := lv, base := b }
+            { e with pending := none, liveId := p'.clOrdId, price := p'.price, qty := nq, leaves := lv, base := b }
             p'.clOrdId "5" (some e.liveId) (Or.inl h.pcl)
-          have hrep : Exch.reported { e with pending := none, liveId := p'.clOrdId, price := p'.price, qty := p'.qty, leaves := lv, base := b } = b := rfl
+          have hrep : Exch.reported { e with pending := none, liveId := p'.clOrdId, price := p'.price, qty := nq, leaves := lv, base := b } = b := rfl
           rw [hrep, hstE, cs8_replaced b hbm] at hfe
           have hbsv : b ∈ statusValues ∧ b ≠ "" := by
             revert hbm; generalize b = b'; revert b'; decide +kernel
